@@ -119,7 +119,7 @@ EQUIV_SCRIPT = (
     "NOT_REPRODUCED()\n")
 
 
-def check_program(e, L, spellings=("class", "method", "operator", "roperator"), mode="C02"):
+def check_program(e, L, spellings=("class", "method", "operator", "roperator"), mode="C02", outcomes=None):
     """one DSL program: real code (all spellings) vs reference, decided over all texts up to L.
     mode selects which disagreements are this property's business:
       C02/C05/C08/C04: semantic equivalence of the emitted pattern with the reference;
@@ -135,14 +135,24 @@ def check_program(e, L, spellings=("class", "method", "operator", "roperator"), 
         return [{"name": name, "status": "skipped", "detail": "unspecified: %s" % x}]
     out = []
     seen_patterns = {}
+    work = []
     for sp in spellings:
         if sp == "operator" and not dsl.has_operator_form(e):
             continue
         if sp == "roperator" and e[0] != "exactly":
             continue
         s = dsl.src(e, sp)
-        ev = evaluate(s)
+        if outcomes is not None and sp == "class":
+            # outcomes of the class spelling under several real hash seeds: [(kind, value, seeds)]
+            for o in outcomes:
+                work.append((sp, s, (o[0], o[1], None) if o[0] == "ok" else (o[0], o[1], ""), list(o[2])))
+        else:
+            work.append((sp, s, None, None))
+    for sp, s, pre_ev, hseeds in work:
+        ev = pre_ev if pre_ev is not None else evaluate(s)
         nm = "%s [%s]" % (name, sp) if sp != "class" else name
+        if hseeds is not None:
+            nm = "%s [seeds %s]" % (nm, ",".join(map(str, hseeds[:4])))
         if ev[0] == "exc":
             if expect[0] == "exc" and expect[1] == ev[1]:
                 out.append({"name": nm, "status": "discharged", "detail": "documented exception %s" % ev[1]})
@@ -216,6 +226,8 @@ def check_program(e, L, spellings=("class", "method", "operator", "roperator"), 
             continue
         verdict, text, ss, info = equiv_query(pat, rf.rx, L)
         res = {"name": nm, "solver_s": ss, "sample": {"program": s, "emitted": pat, "reference": rf.rx, "L": L, "verdict": verdict}}
+        if hseeds is not None:
+            res["hashseed"] = hseeds[:6]
         if verdict == "unsat":
             res["status"] = "discharged"
         elif verdict == "sat":
@@ -390,3 +402,25 @@ def _has_ref(e):
     if isinstance(e, list):
         return any(_has_ref(x) for x in e)
     return False
+
+
+def seed_sensitive(src):
+    """does the expression build class text from a set with more than one member (iteration order = hash seed)?"""
+    import re as _re
+    arg = r"""(?:'(?:[^'\\]|\\.)*'|"(?:[^"\\]|\\.)*"|\w+\(\))"""
+    return bool(_re.search(r"Any(?:But)?From\(" + arg + r"\s*,", src) or _re.search(r"Any(?:But)?Between\(", src)
+                or _re.search(r"\)\s*[|-]\s*(?:Any|'|\")|(?:'|\")\s*[|-]\s*Any|~\s*\(?Any", src))
+
+
+def with_seed_outcomes(programs, seed_list):
+    """-> {index: outcomes} for the seed-sensitive programs of a family (class spelling evaluated under real hash seeds)"""
+    from . import seeds as S
+    idx = [i for i, e in enumerate(programs) if seed_sensitive(dsl.src(e, "class"))]
+    if not idx:
+        return {}
+    srcs = [dsl.src(programs[i], "class") for i in idx]
+    by = S.eval_under_seeds(srcs, seed_list)
+    out = {}
+    for i, s in zip(idx, srcs):
+        out[i] = [(k[0], k[1], v) for k, v in by[s].items()]
+    return out
